@@ -735,6 +735,21 @@ func (env *Env) evalCall(x *ECall) SV {
 			env.fail("unknown type in %s", exprString(x))
 		}
 		return mathBool(env.fc.errHasType(v, T))
+	case "wrapsOne", "wrapsMany":
+		// wrapsOne(err) / wrapsMany(err): err's dynamic type has an `Unwrap() error` /
+		// `Unwrap() []error` method, i.e. the type switch arm of a tree walk takes it
+		// (the very predicate the VC uses for `err.(interface{ Unwrap() error })`)
+		argn(1)
+		v := env.eval(x.Args[0])
+		errT := types.Universe.Lookup("error").Type()
+		var resT types.Type = errT
+		if x.Fn == "wrapsMany" {
+			resT = types.NewSlice(errT)
+		}
+		sig := types.NewSignatureType(nil, nil, nil, nil, types.NewTuple(types.NewVar(0, nil, "", resT)), false)
+		it := types.NewInterfaceType([]*types.Func{types.NewFunc(0, nil, "Unwrap", sig)}, nil)
+		it.Complete()
+		return mathBool(mkAnd(mkNot(mkEq(v.tag(), "0")), env.fc.implementsTerm(v.tag(), it)))
 	case "firstOf":
 		// firstOf(err, *T): the value errors.As would store for target **T
 		argn(2)
